@@ -355,6 +355,63 @@ def run(ctx):
     ctx.add_exploration('asceprovider.AssociationRequester.request', request_wrapper_case, res,
                         target='asceprovider.AssociationRequester.request')
 
+    # ------------------------------------------------------------------ (B'') the state _request starts from
+    # the requester's constructor (provider replaced by a recording stub): the proposal is the snapshot the
+    # entity hands out (copy_context_def_list, (A)), the accepted-context tables are empty and the association's
+    # own, the remote entity and the configured maximum length are the ones given, no socket yet
+    def requester_constructor_case(p):
+        label = 'asceprovider.AssociationRequester.__init__'
+        ob = obl(p, label)
+        dulm = it.modules['pynetdicom2.dulprovider']
+        made = []
+        stub = ClassVal('DULServiceProviderStub', [it.builtins['object']], {
+            '__init__': nego.method(lambda it2, a, kw: made.append((tuple(a[1:]), dict(kw))))}, 'harness')
+        real = dulm.attrs['DULServiceProvider']
+        dulm.attrs['DULServiceProvider'] = stub
+        cfg = nego.install_cfg(it)
+        ae = nego.new_ae(it, cfg)
+        ae.fields['store_in_file'] = Opaque('ae.store_in_file')
+        ae.fields['get_file'] = Opaque('ae.get_file')
+        snapshots = []
+
+        def copy_list(it2, a, kw):
+            snapshots.append(DictVal())
+            return snapshots[-1]
+        ae.cls = ClassVal('AEConfigStub3', [ae.cls], {'copy_context_def_list': nego.method(copy_list)}, 'harness')
+        own = p.fresh_int('configured_max')
+        objs = []
+        try:
+            for i in range(2):
+                me = Obj(asc.attrs['AssociationRequester'])
+                remote = Opaque('remote entity %d' % i)
+                it.call(asc.attrs['AssociationRequester'].lookup('__init__')[0], [me, ae, own, remote], {})
+                objs.append((me, remote))
+        except Raised as r:
+            return noexc(p, label, r)
+        finally:
+            dulm.attrs['DULServiceProvider'] = real
+        for i, (me, remote) in enumerate(objs):
+            f = me.fields
+            for tname in ('accepted_contexts', 'sop_classes_as_scu'):
+                t = f.get(tname)
+                ob('empty-%s' % tname.replace('_', '-'), isinstance(t, DictVal) and not t.entries and t.base is None)
+            ob('proposal-is-the-entitys-snapshot', len(snapshots) == 2 and f.get('context_def_list') is snapshots[i])
+            ob('not-established', f.get('association_established') is False)
+            ob('configured-maximum-length', f.get('max_pdu_length') is own)
+            ob('remote-entity-as-given', f.get('remote_ae') is remote and f.get('ae') is ae)
+            ok = len(made) == 2 and len(made[i][0]) >= 3
+            ob('provider-without-a-connection-yet', ok and made[i][0][0] is ae.fields['store_in_file'] and
+               made[i][0][1] is ae.fields['get_file'] and made[i][0][2] is None)
+        a, b = objs[0][0].fields, objs[1][0].fields
+        ob('tables-are-per-association', a.get('accepted_contexts') is not b.get('accepted_contexts') and
+           a.get('sop_classes_as_scu') is not b.get('sop_classes_as_scu') and
+           a.get('accepted_contexts') is not a.get('sop_classes_as_scu'))
+        p.outcome = 'normal'
+    fv, _ = verify.lookup_function(it, 'asceprovider.AssociationRequester.__init__')
+    infos.append(verify.function_info(it, fv))
+    ctx.add_exploration('asceprovider.AssociationRequester.__init__', requester_constructor_case, res,
+                        target='asceprovider.AssociationRequester.__init__')
+
     # ------------------------------------------------------------------ (D) get_scu
     def get_scu_case(p):
         label = 'asceprovider.AssociationRequester.get_scu'
